@@ -53,8 +53,20 @@ ConvWithin(be, regime, a, s1, s2, r) ==
              \* to log10(s1/s2) digits of conversions into a smaller unit, which are exact otherwise.
              XLe(lhs, AbsTol(XAdd(XAdd(XAbs(s2), XMul(XAbs(a), XAbs(s2))), XOne)))
 
-(* the natural magnitudes of a conversion are in range                     *)
+\* f64, wide band for operands and results of conversions and of + - / (2.5e-304 .. 1e303 roughly: ApproxLog10 is
+\* off by less than 2 for a quotient, so everything admitted lies strictly inside the normal range of f64)
+WideF64(n, d) == XIsZero(n) \/ LET e == ApproxLog10(n) - ApproxLog10(d) IN e >= -303 /\ e <= 303
+
+(* the natural magnitudes of a conversion are in range.  Binary floating point: the operand and the RESULT - an      *)
+(* intermediate such as the operand in reference units need not be representable (the ratio of the two scales is,   *)
+(* and "ratio times amount" is the evaluation the accuracy claim is about).  Decimal: the list of C18.              *)
 ConvInRange(be, a, s1, s2, smin) ==
+    IF be = "f64"
+    THEN /\ IsFin(a)
+         /\ WideF64(a, XOne)
+         /\ WideF64(XMul(a, s1), s2)
+         /\ InR(be, s1, s2) /\ InR(be, s2, s1)
+    ELSE
     /\ IsFin(a)
     /\ InR(be, a, XOne)                     \* operand
     /\ InR(be, XMul(a, s1), XOne)           \* operand in the reference unit
